@@ -606,7 +606,8 @@ impl Ctx {
                 if !self.terminated {
                     self.terminated = true;
                     let sig = if *op == Op::Terminate { Signal::Terminate } else { Signal::Interrupt };
-                    let _ = self.signal_tx.try_send(sig);
+                    // exec is still in its signal loop (nothing made it leave), so the queue drains
+                    let _ = self.signal_tx.send(sig).await;
                 }
             }
             Op::Nudge(k) => {
@@ -751,10 +752,9 @@ fn run_scenario(ops: &[Op], mt: bool) -> Outcome {
         {
             hung2.lock().unwrap().push("setup".into());
         }
-        if let Some(c) = &cond {
-            if !wait_until(|| c.is_finished()).await {
-                hung2.lock().unwrap().push("conductor".into());
-            }
+        if let Some(c) = cond {
+            // every wait inside the conductor is bounded, so it ends by itself
+            let _ = c.await;
         }
         let exec_hung = !hung2.lock().unwrap().is_empty();
         if exec_hung || !wait_until(|| exec_h.is_finished()).await {
@@ -960,7 +960,7 @@ fn run_case(
             class: if late_in_play { "C47:late-spawn-hang".into() } else { "C47:stop-hang".into() },
             input: input.clone(),
             expected: "stop()/exec() return once every actor step has terminated".into(),
-            observed: format!("still pending after the system went idle: {:?}", out.hung),
+            observed: format!("still pending after the bounded wait ({} scheduler rounds): {:?}", ROUNDS, out.hung),
         });
     }
     for e in &out.log {
